@@ -37,8 +37,12 @@ def parseMask (form lsb msb : String) : Option BitMask :=
     else none
   | _, _ => none
 
+/-- result, access log, final window image; for a call that ends in an error only the
+number of write entries is reported instead of the exact log (the property says "refused
+without a device write", not which reads precede the refusal) -/
 def finish (base : Int) (n : Nat) (res : String) (d : Dev) : String :=
-  s!"{res};{showLog d.log};{bytesToHex (d.mem.readRange base n)}"
+  let log := if res.startsWith "err" then s!"W={writesIn d.log}" else showLog d.log
+  s!"{res};{log};{bytesToHex (d.mem.readRange base n)}"
 
 /-- `c02 <op> <profile> <len> <e> <s> <form> <lsb> <msb> <addr> <base> <img> <arg>` -/
 def handle : List String → String
